@@ -22,6 +22,8 @@ Section Cfg.
   Record traj_pred := { tp_traj : traj S; tp_occs : list (Z * R) }.
   Record static_obs := { so_init : S; so_shape : R }.
   Record dyn_obs (P : Type) := { do_init : S; do_shape : R; do_pred : P }.
+  Record env_obs := { eo_shape : R }.                      (* EnvironmentObstacle: _obstacle_shape *)
+  Record phantom_obs (P : Type) := { ph_pred : P }.
 
   Definition occ_of_step (p : Z * R) : occ R := {| o_time := TStep (fst p); o_region := snd p |}.
   Definition occ_of_itv (o : occ_itv) : occ R :=
@@ -32,5 +34,6 @@ Arguments oi_time {R}. Arguments oi_region {R}. Arguments Build_occ_itv {R}.
 Arguments sp_occs {R}. Arguments si_occs {R}.
 Arguments tp_traj {S R}. Arguments tp_occs {S R}.
 Arguments so_init {S R}. Arguments so_shape {S R}.
+Arguments eo_shape {R}. Arguments ph_pred {P}.
 Arguments do_init {S R P}. Arguments do_shape {S R P}. Arguments do_pred {S R P}.
 Arguments occ_of_step {R}. Arguments occ_of_itv {R}.
